@@ -92,6 +92,21 @@ def trigsBounded (sp : C07.Spec) (ev : Key → List Key) (k : Key) (exact : Bool
   | some e => ts.all fun t => if exact then e.trigs.contains t else (ev k).contains t
   | none => true
 
+/-! ### session opcodes: the ideal session store -/
+
+/-- one record per session id: deadline and value of the latest save -/
+abbrev SessSpec := Bytes → Option (Time × Bytes)
+
+/-- what a load must answer at clock value `now` (clock not moving backwards): the latest save of the sid, unless
+removed since, expired, or saved with a negative deadline (reported absent by the server) -/
+def sessExpect (m : SessSpec) (now : Time) (sid : Bytes) : Option (Time × Bytes) :=
+  match m sid with
+  | some (t, v) => if t < now || t < 0 then none else some (t, v)
+  | none => none
+
+def sessSpecSave (m : SessSpec) (sid : Bytes) (t : Time) (v : Bytes) : SessSpec := fun s => if s = sid then some (t, v) else m s
+def sessSpecRemove (m : SessSpec) (sid : Bytes) : SessSpec := fun s => if s = sid then none else m s
+
 /-- same key, same number of servers ⇒ same server: sharding is a function of these two only
 (stated in `Props.consistent_sharding` for the model's `shard`) -/
 def ConsistentSharding (shard : Nat → Key → Nat) : Prop :=
